@@ -465,7 +465,9 @@ def gen_run(rng, cfg, nsess=None, big_p=0.15, exotic_p=0.08, base_k=0):
     ops = interleave(rng, seqs, rng.choice([1, 1, 2, 3]))
     logs = ['log message %d é' % i for i in range(rng.choice([0, 1, 3]))] if cfg['log'] else []
     # snap: judge the on-disk state after every record-writing event while the recorder is still open
-    return {'cfg': cfg, 'ops': ops, 'logs': logs, 'snap': rng.random() < 0.5}
+    # links: the archive / index names are symbolic links to files on another volume (plain link or a chain of two)
+    return {'cfg': cfg, 'ops': ops, 'logs': logs, 'snap': rng.random() < 0.5,
+            'links': rng.choice([None, None, None, 'symlink', 'symlink', 'chain'])}
 
 
 def make_fault(rng, run):
@@ -709,11 +711,38 @@ class ArchiveFault:
 MOVED = 'moved'       # sub-directory used as --warc-move target
 
 
+VOLUME = 'vol'        # sub-directory standing for another volume: the targets of symbolic links
+
+
+def make_links(directory, compress, kind):
+    """The archive and index NAMES of a life are symbolic links (absolute, dangling until first written) to regular files
+    on another volume; kind 'chain': link -> link -> file.  Existing names are left alone."""
+    vol = os.path.join(directory, VOLUME)
+    os.makedirs(vol, exist_ok=True)
+    ext = '.warc.gz' if compress else '.warc'
+    names = [PREFIX + ext, PREFIX + '-meta' + ext, PREFIX + '.cdx'] + [PREFIX + '-%05d' % i + ext for i in range(24)]
+    gen = len([x for x in os.listdir(vol) if x.startswith('gen-')])
+    open(os.path.join(vol, 'gen-%d' % gen), 'w').close()      # every call links to fresh targets
+    for n in names:
+        path = os.path.join(directory, n)
+        if os.path.lexists(path):
+            continue
+        target = os.path.join(vol, 'real%d-%s' % (gen, n))
+        if kind == 'chain':
+            hop = os.path.join(vol, 'hop%d-%s' % (gen, n))
+            if not os.path.lexists(hop):
+                os.symlink(target, hop)
+            target = hop
+        os.symlink(target, path)
+
+
 def read_dir(directory):
     """{name: bytes} of the plain files of the working directory; files of the move directory as 'moved/<name>'."""
     out = {}
     for n in sorted(os.listdir(directory)):
         path = os.path.join(directory, n)
+        if not os.path.exists(path):
+            continue          # a symbolic link whose target has not been created yet
         if os.path.isdir(path):
             if n == MOVED:
                 for m in sorted(os.listdir(path)):
@@ -814,6 +843,8 @@ def run_real_life(directory, run, seed, die=False, side=None):
     from wpull.protocol.http.request import Request, Response
     from wpull.protocol.ftp.request import Request as FTPRequest, Response as FTPResponse
     cfg = run['cfg']
+    if run.get('links'):
+        make_links(directory, cfg['compress'], run['links'])
     before = read_dir(directory)
     created = []
     counter = [0]
@@ -1580,6 +1611,8 @@ def run_scenario(scn, seed='s'):
                 out.tags.append('life:after-abandoned:%s' % ('append' if cfg['appending'] else 'startover'))
             if run.get('snap'):
                 out.tags.append('life:snapshots')
+            if run.get('links'):
+                out.tags.append('life:names-are-%s' % run['links'])
             if cfg['log']:
                 out.tags.append('cfg:log')
             if cfg['extra']:
